@@ -146,6 +146,24 @@ func TestC17_Concurrent(t *testing.T) {
 				tree := drawConfig(t, base, 2, gen.ExprOpts{IllTyped: 14, Budget: 10, MaxDepth: 3})
 				spec = specForTree(tree, 0)
 				schema = schemaFor(tree)
+				if kind == 3 {
+					// a body with real `dynamic` blocks, decoded under a spec built for it
+					ms := gen.DrawSpec(t, gen.SpecOpts{Depth: 2, AttrNames: specAttrPool, BlockTypes: specBlockPool, BlockBias: 40})
+					relaxCounts(ms)
+					dg := &dynGen{t: t, sc: base, feat: map[string]bool{}, dynRate: 1, clean: true}
+					for _, name := range base.Names {
+						v := base.Vals[name]
+						if v.IsKnown() && !v.IsNull() && v.CanIterateElements() && plainIdent.MatchString(name) && !reservedName[name] {
+							dg.preferForEach = append(dg.preferForEach, name)
+						}
+					}
+					tree = ast.DynSyntax(gen.BodyFromSpec(t, ms, gen.BodyFromSpecOpts{Labels: []string{"a", "b", "l"}, Expr: dg.expr, Dyn: dg.dyn}))
+					spec = toHCLDec(ms)
+					schema = hcldec.ImpliedSchema(spec)
+					if dg.nDyn > 0 {
+						c.Class("dynamic_blocks_present")
+					}
+				}
 				if kind == 2 {
 					c.Class("artefact_json_body")
 					// JSON body: attributes as template strings referring to scope variables
@@ -201,6 +219,26 @@ func TestC17_Concurrent(t *testing.T) {
 					sort.Slice(exprs, func(i, j int) bool { return exprs[i].Range().Start.Byte < exprs[j].Range().Start.Byte })
 				}
 			}
+			type genBlock struct {
+				body hcl.Body
+				spec hcldec.Spec
+			}
+			var freshBlocks func(b hcl.Body) []genBlock
+			freshBlocks = func(b hcl.Body) []genBlock {
+				// the blocks a dynblock body generates, extracted once and then shared
+				var out []genBlock
+				if kind != 3 || b == nil {
+					return nil
+				}
+				cnt, _, _ := b.PartialContent(hcldec.ImpliedSchema(spec))
+				childSpecs := hcldec.ChildBlockTypes(spec)
+				for _, bl := range cnt.Blocks {
+					if cs, ok := childSpecs[bl.Type]; ok {
+						out = append(out, genBlock{bl.Body, cs})
+					}
+				}
+				return out
+			}
 			fresh := func() ([]hcl.Expression, hcl.Body) {
 				var es []hcl.Expression
 				var b hcl.Body
@@ -226,6 +264,7 @@ func TestC17_Concurrent(t *testing.T) {
 				}
 				return es, b
 			}
+			baseBlocks := freshBlocks(body)
 			// goroutines and their contexts
 			G := rapid.SampledFrom([]int{2, 2, 4, 8, 16}).Draw(t, "goroutines")
 			sharedParent := rapid.Bool().Draw(t, "shared_parent")
@@ -269,11 +308,16 @@ func TestC17_Concurrent(t *testing.T) {
 							op.kind = 5
 							op.target = rapid.IntRange(0, len(schema.Blocks)-1).Draw(t, "first_type")
 						}
+						if kind == 3 && len(baseBlocks) > 0 && rapid.Bool().Draw(t, "shared_block_op") {
+							// decode one of the generated blocks, which all goroutines share
+							op.kind = 6
+							op.target = rapid.IntRange(0, len(baseBlocks)-1).Draw(t, "block")
+						}
 					}
 					plans[gi] = append(plans[gi], op)
 				}
 			}
-			run := func(exprs []hcl.Expression, body hcl.Body, gi int, op c17op) (res c17result) {
+			run := func(exprs []hcl.Expression, body hcl.Body, blocks []genBlock, gi int, op c17op) (res c17result) {
 				defer func() {
 					if r := recover(); r != nil {
 						res = c17result{val: fmt.Sprintf("PANIC %v", r)}
@@ -301,6 +345,25 @@ func TestC17_Concurrent(t *testing.T) {
 						extra = strings.Join(ns, ",")
 					}
 					return c17result{val: contentDump(cnt), diags: normDiags(d), extra: extra}
+				case 6:
+					if op.target >= len(blocks) {
+						return c17result{val: "no such block"}
+					}
+					// evaluate the attributes of the generated block (its expressions are wrapped so
+					// that the iterator is visible) in this goroutine's context
+					cnt, _, _ := blocks[op.target].body.PartialContent(hcldec.ImpliedSchema(blocks[op.target].spec))
+					var names []string
+					for n := range cnt.Attributes {
+						names = append(names, n)
+					}
+					sort.Strings(names)
+					var vals, dgs []string
+					for _, n := range names {
+						v, d := cnt.Attributes[n].Expr.Value(ctxs[gi])
+						vals = append(vals, n+"="+v.GoString())
+						dgs = append(dgs, normDiags(d))
+					}
+					return c17result{val: strings.Join(vals, ";"), diags: strings.Join(dgs, "\n")}
 				case 5:
 					first := &hcl.BodySchema{Blocks: []hcl.BlockHeaderSchema{schema.Blocks[op.target]}}
 					c1, rest, d1 := body.PartialContent(first)
@@ -322,7 +385,7 @@ func TestC17_Concurrent(t *testing.T) {
 			expected := make([][]c17result, G)
 			for gi := range plans {
 				for _, op := range plans[gi] {
-					expected[gi] = append(expected[gi], run(exprs, body, gi, op))
+					expected[gi] = append(expected[gi], run(exprs, body, baseBlocks, gi, op))
 					if strings.HasPrefix(expected[gi][len(expected[gi])-1].val, "PANIC") {
 						c.Failf("panic-sequential", "sequential call panicked: %s", expected[gi][len(expected[gi])-1].val)
 					}
@@ -334,6 +397,7 @@ func TestC17_Concurrent(t *testing.T) {
 			c.Class(fmt.Sprintf("gomaxprocs_%d", procs))
 			got := make([][]c17result, G)
 			sharedExprs, sharedBody := fresh()
+			sharedBlocks := freshBlocks(sharedBody)
 			var inflight, maxInflight int32
 			var wg sync.WaitGroup
 			start := make(chan struct{})
@@ -353,7 +417,7 @@ func TestC17_Concurrent(t *testing.T) {
 								break
 							}
 						}
-						got[gi] = append(got[gi], run(sharedExprs, sharedBody, gi, op))
+						got[gi] = append(got[gi], run(sharedExprs, sharedBody, sharedBlocks, gi, op))
 						atomic.AddInt32(&inflight, -1)
 					}
 				}(gi)
